@@ -32,6 +32,7 @@ type SolverStats struct {
 	Time     time.Duration
 	MaxQuery time.Duration
 	ValueTime, PopTime time.Duration
+	FirstError         string
 }
 
 type Solver struct {
@@ -217,6 +218,9 @@ func (s *Solver) Assert(t *Term) {
 func (s *Solver) Check(extra ...*Term) Result {
 	if s.dead {
 		s.Stats.Errors++
+		if s.Stats.FirstError == "" {
+			s.Stats.FirstError = s.Name + ": solver process died"
+		}
 		return Unknown
 	}
 	scoped := len(extra) > 0
@@ -290,6 +294,9 @@ func (s *Solver) readResult() Result {
 			return Unknown
 		case strings.HasPrefix(l, "(error"):
 			s.Stats.Errors++
+			if s.Stats.FirstError == "" {
+				s.Stats.FirstError = s.Name + ": " + l
+			}
 			if s.dead {
 				return Unknown
 			}
@@ -372,6 +379,9 @@ func (s *Solver) readSexp() (string, error) {
 		}
 		if !started && strings.HasPrefix(l, "(error") {
 			s.Stats.Errors++
+			if s.Stats.FirstError == "" {
+				s.Stats.FirstError = s.Name + " (get-value): " + l
+			}
 			return "", fmt.Errorf("solver error: %s", l)
 		}
 		for _, c := range l {
